@@ -1026,9 +1026,19 @@ impl Entry {
                     .filter_map(|c| c.as_token().map(|t| t.text()))
                     .collect::<String>();
                 let formatted = format_value(self.key().as_ref().unwrap(), &concat);
-                crate::lex::lex_inline(&formatted)
-                    .map(|(k, t)| (k, t.to_string()))
-                    .collect::<Vec<_>>()
+                // Lex line by line: every line of the formatted value is value text, even if
+                // it looks like a field or a comment when lexed from the start of a line.
+                let mut tokens = vec![];
+                for (i, line) in formatted.split('\n').enumerate() {
+                    let line = if i > 0 {
+                        tokens.push((NEWLINE, "\n".to_string()));
+                        line.trim_start_matches(|c| c == ' ' || c == '\t')
+                    } else {
+                        line
+                    };
+                    tokens.extend(crate::lex::lex_inline(line).map(|(k, t)| (k, t.to_string())));
+                }
+                tokens
             } else {
                 content
                     .into_iter()
